@@ -94,3 +94,18 @@ Proof.
   constructor; [|exact IH].
   rewrite dedup_In; apply mem_false_In; exact E.
 Qed.
+
+Lemma dedup_keep_first_aux_In : forall l seen x,
+  In x l -> In x seen \/ In x (dedup_keep_first_aux seen l).
+Proof.
+  induction l as [|y l IH]; intros seen x H; [destruct H|]. cbn [dedup_keep_first_aux].
+  destruct (mem y seen) eqn:E.
+  - destruct H as [->|H]; [left; apply mem_In; exact E | apply IH; exact H].
+  - destruct H as [->|H]; [right; left; reflexivity|].
+    destruct (IH (y :: seen) x H) as [[->|Hs]|Hd]; [right; left; reflexivity | left; exact Hs | right; right; exact Hd].
+Qed.
+
+Lemma dedup_keep_first_In : forall l x, In x l -> In x (dedup_keep_first l).
+Proof.
+  intros l x H. unfold dedup_keep_first. destruct (dedup_keep_first_aux_In l [] x H) as [[]|H']. exact H'.
+Qed.
